@@ -541,11 +541,34 @@ Section MentionsOptimize.
     inversion Hts; subst. apply IH; [apply catsP_split_step; assumption | assumption].
   Qed.
 
+  (* the work-list of [regroup] (D32 repair): its elements mention no more pseudo-types than the members *)
+  Lemma members_deep_union us : members_deep (TUnion us) = flat_map members_deep us.
+  Proof. simpl. induction us as [| x r IH]; simpl; [reflexivity |]. rewrite IH. reflexivity. Qed.
+
+  Lemma nom_members_deep : forall t, nom p t -> Forall (nom p) (members_deep t).
+  Proof.
+    induction t as [| | | | | | q | o l | x IH | x IH | x IH | us IH | fs IH | i] using ty_ind2; intros H;
+      try (simpl; constructor; [exact H | constructor]).
+    - (* TOpt *) simpl. constructor; [reflexivity |]. apply IH. exact H.
+    - (* TUnion *) rewrite members_deep_union. apply nom_union in H.
+      apply Forall_forall. intros y Hy. apply in_flat_map in Hy. destruct Hy as [x [Hx Hy]].
+      rewrite Forall_forall in IH, H. specialize (IH x Hx (H x Hx)).
+      rewrite Forall_forall in IH. exact (IH y Hy).
+  Qed.
+
+  Lemma nom_flat_members_deep (ts : list ty) : Forall (nom p) ts -> Forall (nom p) (flat_map members_deep ts).
+  Proof.
+    intros H. apply Forall_forall. intros y Hy. apply in_flat_map in Hy. destruct Hy as [x [Hx Hy]].
+    rewrite Forall_forall in H. pose proof (nom_members_deep x (H x Hx)) as Hd.
+    rewrite Forall_forall in Hd. exact (Hd y Hy).
+  Qed.
+
   Theorem regroup_no_disabled (ts : list ty) : Forall (nom p) ts -> Forall (nom p) (regroup registry replaces ptr_eq ts).
   Proof.
-    intros Hts. unfold regroup.
-    pose proof (catsP_fold ts ([], [], [], [], [])) as Hc.
-    destruct (fold_left (split_step registry) ts ([], [], [], [], [])) as [[[[strs objs] lists] dicts] other].
+    intros Hts. apply nom_flat_members_deep in Hts. unfold regroup.
+    pose proof (catsP_fold (flat_map members_deep ts) ([], [], [], [], [])) as Hc.
+    destruct (fold_left (split_step registry) (flat_map members_deep ts) ([], [], [], [], []))
+      as [[[[strs objs] lists] dicts] other].
     destruct Hc as [H1 [H2 [H3 [H4 H5]]]]; [unfold catsP; repeat split; constructor | exact Hts |].
     repeat (apply Forall_app; split).
     - destruct (existsb (ty_eqb TInt) other && existsb (ty_eqb TFloat) other);
